@@ -37,6 +37,7 @@ type dbStep struct {
 	Us         int        `json:"us"`
 	Clients    [][]dbStep `json:"clients"`
 	Flavor     string     `json:"flavor"` // "bytes" (default) or "string"
+	Async      bool       `json:"async"`  // EnableAsyncWAL
 	KC         string     `json:"kc"`     // argument class of the key for putx/delx/getx: nil | empty | ok
 	VC         string     `json:"vc"`     // argument class of the value for putx
 }
@@ -269,7 +270,9 @@ func runDB(args []string) error {
 			// a case that leaves the database open: close it quietly (events still validated)
 			_ = db.Close()
 		}
-		os.RemoveAll(dir)
+		if os.Getenv("VERIF_KEEP_DIR") == "" {
+			os.RemoveAll(dir)
+		}
 	}
 	return nil
 }
@@ -293,6 +296,9 @@ func (x *dbExec) step(db *simpledb.DB, s dbStep, g int) (*simpledb.DB, error) {
 		}
 		if s.WBuf > 0 {
 			opts = append(opts, simpledb.WriteBufferSizeBytes(s.WBuf))
+		}
+		if s.Async {
+			opts = append(opts, simpledb.EnableAsyncWAL())
 		}
 		if s.Bg {
 			opts = append(opts, simpledb.CompactionRunInterval(time.Duration(s.IntervalUs)*time.Microsecond))
